@@ -6,6 +6,7 @@ package main
 import (
 	"bytes"
 	"crypto/ecdsa"
+	"crypto/x509"
 	"fmt"
 	"net/http"
 	"net/url"
@@ -121,6 +122,9 @@ func build(r *mon.Run, i int, ids map[string]*gen.Identity) *scenario {
 		perm = pg.Perm(len(hostPool))
 	}
 	base := time.Unix(1600000000+int64(g.Intn(100000)), 0)
+	if g.Chance(1, 3) {
+		base = time.Unix(gen.DSTBase(g), 0) // validity windows that cross a daylight-saving transition of the local zone
+	}
 	for s := 0; s < nsig; s++ {
 		var hosts []string
 		for j, pi := range perm {
@@ -145,6 +149,15 @@ func build(r *mon.Run, i int, ids map[string]*gen.Identity) *scenario {
 			leaf := gen.Cert(id.Key, gen.CertOpts{CN: hosts[0], DNS: hosts, Serial: int64(1000 + len(ids))})
 			id.Certs[0] = leaf
 			id.Chain[0].Cert = leaf
+			if len(id.Certs) >= 2 && ig.Bool() {
+				// the intermediate is the same certificate for several identities (two origins served by one CA)
+				if sharedCA == nil {
+					cg := r.Rand("shared-ca", 0)
+					sharedCA = gen.Cert(gen.ECKey(cg, gen.Curves[0]), gen.CertOpts{CN: "shared intermediate", Serial: 555})
+				}
+				id.Certs[1] = sharedCA
+				id.Chain[1].Cert = sharedCA
+			}
 			if ig.Bool() {
 				// a chain value with spare capacity, as append-built slices have
 				id.Chain = append(make(certurl.CertChain, 0, len(id.Chain)+1+ig.Intn(3)), id.Chain...)
@@ -328,6 +341,8 @@ func reread(r *mon.Run, sc *scenario, f []byte, class, mut string) *bundle.Bundl
 	return b
 }
 
+var sharedCA *x509.Certificate
+
 func maxInt(a, b int) int {
 	if a > b {
 		return a
@@ -430,7 +445,7 @@ func run(r *mon.Run) {
 		if i%4 == 0 {
 			sp := sc.signers[0]
 			vu, _ := url.Parse("https://" + sp.hosts[0] + "/validity")
-			for _, d := range []time.Duration{604800 * time.Second, 604801 * time.Second, 8 * 24 * time.Hour, 30 * 24 * time.Hour} {
+			for _, d := range []time.Duration{604800*time.Second - time.Hour, 604800*time.Second - time.Second, 604800 * time.Second, 604801 * time.Second, 604800*time.Second + 30*time.Minute, 604800*time.Second + time.Hour, 8 * 24 * time.Hour, 30 * 24 * time.Hour} {
 				s2, _ := signature.NewSigner(sc.ver, sp.id.Chain, sp.id.Key, vu, sp.date, d)
 				sigs, err := s2.UpdateSignatures(nil)
 				if err != nil {
